@@ -28,7 +28,7 @@ PURE_MODULE_CALLS = {
     'os.path': {'abspath', 'join', 'basename', 'dirname', 'exists', 'splitext'},
     'tinycss2': {'serialize', 'parse_component_value_list', 'parse_declaration_list', 'parse_stylesheet', 'parse_rule_list', 'parse_one_component_value'},
 }
-STDOUT_CALLS = {'print', 'click.echo', 'click.secho', 'traceback.print_exc', 'warnings.warn', 'console.print', 'sys.stdout.write', 'sys.stderr.write', 'logging.warning', 'logging.info', 'logging.error'}
+STDOUT_CALLS = {'print', 'click.echo', 'click.secho', 'traceback.print_exc', 'warnings.warn', 'console.print', 'sys.stdout.write', 'sys.stderr.write', 'logging.warning', 'logging.error', 'logging.critical', 'logging.exception'}
 MUTATORS = {'append', 'update', 'pop', 'setdefault', 'clear', 'extend', 'insert', 'remove', 'add', 'discard', 'sort', 'reverse', 'popitem', 'write', 'writelines'}
 NONDET = {'random', 'time', 'datetime', 'uuid', 'secrets'}
 REFLECTION_NAMES = {'setattr', 'delattr', 'globals', 'locals', 'exec', 'eval', 'vars', '__import__', 'compile'}
@@ -250,8 +250,8 @@ class Analyzer:
             low = name.lower()
             if name in STDOUT_CALLS or low in STDOUT_CALLS or name.endswith('.print') and 'console' in low:
                 s.add('stdout', n.lineno, guards); return
-            if '.' in name and name.rsplit('.', 1)[1] in ('debug', 'info', 'warning', 'warn', 'error', 'critical', 'exception', 'log') and 'log' in name.rsplit('.', 1)[0].lower():
-                s.add('stdout', n.lineno, guards); return       # a logger object: with logging unconfigured, WARNING and above reach stderr through the last-resort handler
+            if '.' in name and name.rsplit('.', 1)[1] in ('warning', 'warn', 'error', 'critical', 'exception', 'log') and 'log' in name.rsplit('.', 1)[0].lower():
+                s.add('stdout', n.lineno, guards); return       # a logger object: with logging unconfigured, WARNING and above reach stderr through the last-resort handler (debug / info do not)
             if name == 'open':
                 mode = 'r'
                 if len(n.args) > 1 and isinstance(n.args[1], ast.Constant): mode = n.args[1].value
